@@ -23,6 +23,7 @@ import (
 
 	amhist "github.com/pancsta/asyncmachine-go/pkg/history"
 	am "github.com/pancsta/asyncmachine-go/pkg/machine"
+	"github.com/pancsta/asyncmachine-go/pkg/x/simhook"
 )
 
 type MatcherFn func(
@@ -719,6 +720,11 @@ func (m *Memory) writeDb(rLocked bool) {
 
 	// fork
 	go func() {
+		if rLocked {
+			simhook.At("hist.bbolt.write", "batch")
+		} else {
+			simhook.At("hist.bbolt.write", "sync")
+		}
 		if rLocked {
 			defer m.syncMx.RUnlock()
 		}
